@@ -456,7 +456,7 @@ def run(ctx):
         todo = set(range(len(g.edges)))
         total = len(todo)
         done, banned = set(), set()
-        for rnd_no in range(5):
+        for rnd_no in range(25):
             # states the implementation has actually produced so far (a nondeterministic model step may have outcomes the
             # implementation never chooses; states only reachable through those cannot be entered)
             reached = {g.init} | {g.edges[i]["dst"] for i in done}
@@ -469,6 +469,8 @@ def run(ctx):
             if rnd_no == 0:
                 ctx.sample({"universe": uni.name, "state_points": uni.sp_of, "walk": [_describe(uni, g.edges[i]) for i in walks[len(walks) // 2][:8]]})
             cov, nt = _replay_all(ctx, uni.name, walks, "r%d" % rnd_no)
+            if not (cov - done) and not (nt - banned):
+                break                                   # no progress
             done |= cov
             banned |= nt - done
             todo -= done
